@@ -161,8 +161,12 @@ def integer(ctx: RuleCtx, mod: T.Any) -> None:
 
 def _field_default(ctx: RuleCtx, mod: T.Any, cls: str, name: str) -> T.Tuple[T.Any, T.Optional[bool]]:
     """(default value, init flag) of a dataclass field declared in `cls`."""
+    from ..core import AnchorMissing
     c = mod.cls(cls)
-    e = mod.assign_value(name, c)
+    try:
+        e = mod.assign_value(name, c)
+    except AnchorMissing:
+        raise Undecided(f'{cls}.{name} is not declared at class level (moved into __init__ / __post_init__?)')
     if isinstance(e, ast.Call) and (norm(e.func) in ('dataclasses.field', 'field')):
         init = kwarg(e, 'init')
         initv = None if init is None else bool(fold_expr(ctx.repo, mod, init))
